@@ -4,8 +4,8 @@
    [br : step -> |active| -> bool] is an ARBITRARY branch oracle: every theorem below holds
    for every schedule of full/sparse updates, hence for every full_fraction in (0,1], every
    n_trial_calculation and every outcome of the wall-clock calibration. *)
-From Verif Require Import ListX Greedy FPS Voronoi VorCalib ListXP GreedyP FPSP FPSInst GeomP
-  VoronoiP SimP C02Thm C06Thm.
+From Verif Require Import ListX Greedy FPS Voronoi VorCalib VorObj ListXP GreedyP FPSP FPSInst GeomP
+  VoronoiP SimP C02Thm C06Thm VorObjP.
 
 Theorem C06_cauchy_schwarz :
   forall u v : list Z, length u = length v -> dot u v * dot u v <= sqn u * sqn v.
@@ -50,7 +50,7 @@ Theorem C06_warm_start :
 Proof. exact voronoi_warm. Qed.
 Print Assumptions C06_warm_start.
 
-(* whatever the timings, the calibrated switching point is lo/128 with 0 <= lo < 128 *)
+(* whatever the timings, the bisection ends at lower = lo/128 with 0 <= lo < 128 *)
 Theorem C06_calibration_range :
   forall outs : nat -> bool, let '(k, lo) := calibrate outs in k = 7%nat /\ 0 <= lo < 128.
 Proof. exact calibrate_range. Qed.
@@ -64,3 +64,138 @@ Example C06_nonvacuous :
   sel (fst (fps_fit cs None [0%nat] NoThr 4)) = [0; 4; 6; 5]%nat /\
   count_true (active cs (sst (fst (vor_fit cs (fun _ _ => false) None 0 NoThr 3))) 5) = 2%nat.
 Proof. cbv zeta. split; [repeat constructor|]. repeat split; vm_compute; reflexivity. Qed.
+
+(* ---- extension (round 3) ----------------------------------------------------------------- *)
+(* what is STORED in full_fraction (lower if lower > 0 else top, /repo 0a955d1) is v/128 with
+   0 < v < 128: strictly inside (0,1), whatever the timings *)
+Theorem C06_calibration_stored_range :
+  forall outs : nat -> bool, let '(k, v) := calibrate_stored outs in k = 7%nat /\ 0 < v < 128.
+Proof. exact calibrate_stored_range. Qed.
+Print Assumptions C06_calibration_stored_range.
+
+(* ... and therefore passes the check `0 < full_fraction <= 1` of every later fit of the object *)
+Theorem C06_calibrated_value_accepted :
+  forall (outs : nat -> bool) (nt : ntp),
+    let '(k, v) := calibrate_stored outs in ff_check (FFReal v (2 ^ Z.of_nat k)) nt = None.
+Proof. exact calibrated_value_accepted. Qed.
+Print Assumptions C06_calibrated_value_accepted.
+
+(* the cold fit accepts exactly the parameter region the property quantifies over
+   (n_to_select resolving to >= 1, switching point None with n_trial_calculation >= 1 or a real in
+   (0,1], initialize an index < n or 'random'); everything else raises *)
+Theorem C06_validation_spec :
+  forall n p ff nt ini, (forall num den, ff = FFReal num den -> 0 < den) ->
+    vor_validate n p ff nt ini = None <-> in_quantifier n p ff nt ini.
+Proof. exact vor_validate_spec. Qed.
+Print Assumptions C06_validation_spec.
+
+(* OBJECT level (Model/VorObj.v: norms_, X_selected_, selected_idx_, the dSL_ buffer, new_dist_ ...
+   are attributes that earlier calls left behind).  One _update_post_selection on the object is one
+   step of the data-level model, as long as the attributes describe the data of this call *)
+Theorem C06_object_step :
+  forall X d, dims d X -> forall br o v sl i,
+    OR X o v sl -> (i < length X)%nat -> OR X (oupd X br o i) (vupd X br v i) (sl ++ [i]).
+Proof. exact oupd_sim. Qed.
+Print Assumptions C06_object_step.
+
+(* a cold fit on an object with ANY past [prev] (fitted on other data of the same or another
+   shape, warm-started, ...) gives plain FPS's outputs on the data of THIS call, and re-establishes
+   the attributes (norms_ = squared norms of this X, ...) — for every branch oracle *)
+Theorem C06_object_cold_fit_equals_fps :
+  forall X d br ycand prev i0 t k, dims d X -> (i0 < length X)%nat ->
+    let rv := obj_fit_cold X br ycand prev i0 t k in
+    let rf := fps_fit X ycand [i0] t k in
+    sel (fst rv) = sel (fst rf) /\ xsel (fst rv) = xsel (fst rf) /\ ysel (fst rv) = ysel (fst rf) /\
+    o_haus (sst (fst rv)) = haus (sst (fst rf)) /\
+    obj_select_distance (fst rv) = select_distance (fst rf) /\
+    snd rv = snd rf /\
+    o_norms (sst (fst rv)) = fps_norms X /\
+    o_sel (sst (fst rv)) = sel (fst rv) /\
+    o_xs (sst (fst rv)) = map (fun i => nth i X []) (sel (fst rv)).
+Proof. exact obj_cold_outputs. Qed.
+Print Assumptions C06_object_cold_fit_equals_fps.
+
+(* warm start on the object (np.pad of dSL_, everything else kept) stays in step with plain FPS *)
+Theorem C06_object_warm_start :
+  forall X d, dims d X -> forall br ycand g1 g2 t k,
+    gsim ost dst (ORF X) g1 g2 ->
+    gsim ost dst (ORF X) (fst (obj_fit_warm X br ycand g1 t k)) (fst (fps_run X ycand t k g2)) /\
+    snd (obj_fit_warm X br ycand g1 t k) = snd (fps_run X ycand t k g2).
+Proof. exact obj_warm_equals_fps. Qed.
+Print Assumptions C06_object_warm_start.
+
+(* no numpy shape / index error inside a fit: the dSL_ buffer (capacity n_to_select) is never
+   overrun by the slice assignment and dSL_[vlocation_of_idx] never reads outside it *)
+Theorem C06_object_cold_no_error :
+  forall X d, dims d X -> forall br ycand prev i0 t k, (i0 < length X)%nat -> (1 <= k)%nat ->
+    let g := fst (obj_fit_cold X br ycand prev i0 t k) in
+    o_ok (sst g) = true /\ length (o_dsl (sst g)) = k.
+Proof. exact obj_cold_no_error. Qed.
+Print Assumptions C06_object_cold_no_error.
+
+Theorem C06_object_warm_no_error :
+  forall X d, dims d X -> forall br ycand g1 g2 t k,
+    gsim ost dst (ORF X) g1 g2 -> o_ok (sst g1) = true ->
+    (length (sel g1) <= length (o_dsl (sst g1)))%nat ->
+    let g := fst (obj_fit_warm X br ycand g1 t k) in
+    o_ok (sst g) = true /\ (k <= length (o_dsl (sst g)))%nat.
+Proof. exact obj_warm_no_error. Qed.
+Print Assumptions C06_object_warm_no_error.
+
+(* SESSIONS (any list of fit calls on one object).  An accepted cold fit forgets the whole history:
+   the state after it is the same from any two earlier states (new_dist_, the one attribute the
+   code does not reset, is rewritten by the first step) — or the call fails from both *)
+Theorem C06_cold_fit_forgets_history :
+  forall s1 s2 X br i0 p k, shape_ok X = true -> resolve_n (length X) p = Some k ->
+    sess_step s1 (VCold X br i0 p) = sess_step s2 (VCold X br i0 p) \/
+    (fst (sess_step s1 (VCold X br i0 p)) = None /\ fst (sess_step s2 (VCold X br i0 p)) = None).
+Proof. exact sess_cold_history_independent. Qed.
+Print Assumptions C06_cold_fit_forgets_history.
+
+(* session invariant: after an accepted cold fit — whatever came before — the object is in plain
+   FPS's state on that data, error-free, with room in the buffer; accepted warm fits keep it *)
+Theorem C06_session_cold_fit :
+  forall s X d br i0 p k, dims d X -> shape_ok X = true -> resolve_n (length X) p = Some k ->
+    (i0 < length X)%nat -> (1 <= k)%nat ->
+    snd (sess_step s (VCold X br i0 p)) = true /\
+    sess_inv X (fst (sess_step s (VCold X br i0 p))) (fst (fps_fit X None [i0] NoThr k)).
+Proof. exact sess_cold_equals_fps. Qed.
+Print Assumptions C06_session_cold_fit.
+
+Theorem C06_session_warm_fit :
+  forall s g2 X d br p k, dims d X -> shape_ok X = true -> resolve_n (length X) p = Some k ->
+    sess_inv X s g2 -> (length (sel g2) <= k)%nat ->
+    snd (sess_step s (VWarm X br p)) = true /\
+    sess_inv X (fst (sess_step s (VWarm X br p))) (fst (fps_run X None NoThr k g2)).
+Proof. exact sess_warm_equals_fps. Qed.
+Print Assumptions C06_session_warm_fit.
+
+(* non-vacuity: one object, fitted on clustered data, refitted cold on OTHER data with the same
+   number of samples (and once rejected in between), then warm-started: plain FPS on the second
+   data; the stored norms are those of the second data; a stale norms_ would differ *)
+Example C06_session_nonvacuous :
+  let X1 := [[0;0];[1;0];[0;1];[100;100];[101;100];[100;101];[50;0]] in
+  let X2 := [[3;3];[40;41];[2;3];[41;41];[3;2];[40;40];[90;0]] in
+  let sp := fun _ _ => false in
+  let s := sess_run None [VCold X1 sp 0 (NtsInt 4); VWarm X1 sp (NtsInt 2);
+                          VCold X2 sp 2 (NtsInt 2); VWarm X2 sp (NtsInt 4)] in
+  dims 2 X2 /\ shape_ok X2 = true /\
+  option_map sel s = Some (sel (fst (fps_fit X2 None [2%nat] NoThr 4))) /\
+  option_map sel s = Some [2; 6; 3; 4]%nat /\
+  option_map (fun g => o_norms (sst g)) s = Some (fps_norms X2) /\
+  fps_norms X1 <> fps_norms X2 /\
+  option_map (fun g => o_ok (sst g)) s = Some true /\
+  snd (sess_step None (VWarm X1 sp (NtsInt 2))) = false.
+Proof.
+  cbv zeta. split; [repeat constructor|].
+  repeat split; try (vm_compute; reflexivity). vm_compute. discriminate.
+Qed.
+
+Example C06_validation_nonvacuous :
+  vor_validate 7 (NtsInt 3) (FFReal 1 2) (NTInt 4) (InInt 6) = None /\
+  vor_validate 7 (NtsInt 3) (FFReal 3 2) (NTInt 4) (InInt 6) = Some EValueError /\
+  vor_validate 7 (NtsInt 3) FFNone NTOther (InInt 6) = Some ETypeError /\
+  vor_validate 7 (NtsInt 3) FFNone (NTInt 4) (InInt 7) = Some EIndexError /\
+  calibrate_stored (fun _ => false) = (7%nat, 1) /\ calibrate (fun _ => false) = (7%nat, 0) /\
+  calibrate_stored (fun k => Nat.even k) = (7%nat, 85).
+Proof. repeat split; vm_compute; reflexivity. Qed.
